@@ -163,8 +163,8 @@ func uniq(ss []string) []string {
 }
 
 // tier alphabet of signature patterns for a set of n validators
-func (c *ctx) sigPatterns(n int) []string {
-	if c.r.Thorough() && n <= 3 {
+func (c *ctx) sigPatterns(n int, full bool) []string {
+	if c.r.Thorough() && (n <= 3 || full) {
 		return patterns("acnfd", n)
 	}
 	alphas := []string{"ac", "cn", "cf", "cd"}
@@ -219,6 +219,13 @@ func main() {
 	walls["A"] = lap()
 	stB := c.partB(fams, kits)
 	cov["partB"] = stB.perFam
+	cov["partB_alphabet"] = map[string]any{
+		"sets":    "A=(10,3,3,2) B=(1,1,1) C=(2,1), overlapping keys; A2 = keys of A with powers (10,3,3,20) only ever shipped as a wrong set; genesis h=1 trusts A",
+		"heights": "tracked-1, tracked, tracked+1, tracked+5 (main grid: +1, +5)",
+		"main_grid": "trusted set x next in {A,B,C} (unchanged and changed) x block version (cosmos 10|11) x signature patterns: quick {a,c}^n u {c,n}^n u {c,f}^n u {c,d}^n ; thorough n<=3 {a,c,n,f,d}^n, n=4 quick u {a,c,n}^4 u {a,c,d}^4 u {a,c,f}^4 (a=absent c=commit n=nil vote f=outsider-signed d=duplicate of the first commit)",
+		"side_cases": "fully signed: untrusted set (B/C/A2) with every next; shipped set != set named by the header (both directions); commit height+1; commit for another block id; header+votes for a foreign chain id; heights <= tracked; two headers in one tx (T->X at +1, X->Y at +2 fully / exactly-2/3 signed); operator re-genesis at a lower height",
+		"deposits":   "ImportOuterTransfer at tracked-1/tracked/tracked+1, next unchanged/changed, signatures all / minimal >2/3 / exactly 2/3, proof in {existence, value mismatch, absence with empty key path}; untrusted set + {existence, absence}",
+	}
 	walls["B"] = lap()
 	r.Note("wall_s_parts", walls)
 
